@@ -97,6 +97,18 @@ def submodel(base: dict, methods: List[str]) -> dict:
     }
 
 
+TOOL_CONFIGS = [
+    ("rustfmt.toml", "hard_tabs = true\nmax_width = 60\n"),
+    (".rustfmt.toml", "max_width = 40\ntab_spaces = 2\n"),
+    ("pyproject.toml", "[tool.black]\nline-length = 30\n[tool.ruff]\nline-length = 30\n[tool.isort]\nforce_single_line = true\n"),
+    ("ruff.toml", "line-length = 30\nindent-width = 2\n"),
+    ("setup.cfg", "[flake8]\nmax-line-length = 30\n[isort]\nline_length = 30\n"),
+    (".editorconfig", "root = true\n[*]\nindent_style = tab\nend_of_line = crlf\nmax_line_length = 40\n"),
+    (".gitattributes", "* text eol=crlf\n"),
+    ("Directory.Build.props", "<Project><PropertyGroup><Nullable>disable</Nullable></PropertyGroup></Project>\n"),
+]
+
+
 class Pool:
     """model lists written once into a scratch directory."""
 
@@ -106,7 +118,8 @@ class Pool:
         evolved: List[Tuple[dict, List[dict]]] = []
         mini(evolve.evolved(base, 2, 5, allow={"E1", "E2", "E3", "E4", "E5", "E6", "E7", "E8"}), 3, (seed, "C16", "pool"), lambda x: evolved.append(x))
         small_a = submodel(base, ["textDocument/hover", "textDocument/didOpen", "$/progress", "workspace/symbol"])
-        small_b = submodel(base, ["textDocument/completion", "textDocument/didClose", "window/showMessage"])
+        # (colorPresentation declares the one `and` type of the committed model)
+        small_b = submodel(base, ["textDocument/completion", "textDocument/didClose", "window/showMessage", "textDocument/colorPresentation"])
         # a reduced model that exercises every type production under every kind of name (literals, tuples, maps,
         # keyword names...): the places where a plugin invents names or iterates over sets
         mx: List[Tuple[dict, List[dict]]] = []
@@ -234,7 +247,7 @@ def make_machine(plugin: str, pool: Pool, ctx: Ctx, stats: collections.Counter, 
             self.dirty = False
 
         @rule(k=st.integers(0, len(pool.keys) - 1), hs=st.one_of(st.sampled_from([0, 1, 2, 987654321]), st.integers(0, 2**32 - 1)),
-              sp=st.sampled_from(["default", "default", "cwd", "relative"]))
+              sp=st.sampled_from(["default", "default", "cwd", "relative", "minpath"]))
         def run(self, k, hs, sp):
             self.do_run(pool.keys[k], hs, sp)
 
@@ -244,7 +257,7 @@ def make_machine(plugin: str, pool: Pool, ctx: Ctx, stats: collections.Counter, 
             self.do_run(self.last_key, hs)
 
         @precondition(lambda self: self.last_key is not None)
-        @rule(kind=st.sampled_from(["owned-pattern", "overwrite", "truncate"]), tag=st.integers(0, 999))
+        @rule(kind=st.sampled_from(["owned-pattern", "overwrite", "truncate", "tool-config"]), tag=st.integers(0, 999))
         def plant_stale(self, kind, tag):
             self._plant(kind, tag)
 
@@ -258,6 +271,14 @@ def make_machine(plugin: str, pool: Pool, ctx: Ctx, stats: collections.Counter, 
             self.history.append(["plant", kind, tag])
             self.dirty = True
             stats["plants"] += 1
+            if kind == "tool-config":
+                # files that formatters and build tools pick up from the directory they work in (nobody's generated file)
+                name, text = TOOL_CONFIGS[tag % len(TOOL_CONFIGS)]
+                where = [self.out, os.path.join(self.out, "lsprotocol"), os.path.join(self.out, "lsprotocol", "src")][(tag // len(TOOL_CONFIGS)) % 3]
+                os.makedirs(where, exist_ok=True)
+                with open(os.path.join(where, name), "w") as f:
+                    f.write(text)
+                return
             if plugin == "dotnet":
                 d = os.path.join(self.out, "lsprotocol")
                 target = os.path.join(d, f"Stale{tag}.cs") if kind == "owned-pattern" else os.path.join(d, "Position.cs")
@@ -292,11 +313,17 @@ def child_inprocess(plugin: str, lists: Dict[str, List[str]], order: List[str]) 
     mod = importlib.import_module(f"generator.plugins.{plugin}")
     logging.disable(logging.CRITICAL)
     out = []
+    specs: Dict[str, Any] = {}
     for key in order:
         d = gen.scratch(f"lspverif-c16-inproc-{plugin}-")
+        again = key.startswith("=")   # "=k": generate once more from the model object loaded for the previous run of k
+        key = key.lstrip("=")
         try:
-            docs = [json.load(open(p_)) for p_ in lists[key]]
-            spec = gmodel.create_lsp_model(docs)
+            if again and key in specs:
+                spec = specs[key]
+            else:
+                docs = [json.load(open(p_)) for p_ in lists[key]]
+                spec = specs[key] = gmodel.create_lsp_model(docs)
             mod.generate(spec, d, os.path.join(d, "_tests"))
             out.append([key, owned_digest(plugin, d)])
         except Exception as e:
@@ -337,6 +364,10 @@ def _work(args) -> dict:
                 for kind, tag in (("truncate", 3), ("overwrite", 7), ("owned-pattern", 11)):
                     mach._plant(kind, tag)
                     mach.do_run(a, 1)
+                for tag in range(len(TOOL_CONFIGS) * 3):   # configuration files of formatters / build tools, at every level
+                    mach._plant("tool-config", tag)
+                mach.do_run(a, 1)
+                mach.do_run(a, 1, "minpath")
                 for key in ("small_a_open", a, "small_a_base", a, "small_a_doc", a):   # models that differ only inside shared declarations
                     mach.do_run(key, 2)
                 mach.do_run(b, 2)
@@ -351,7 +382,8 @@ def _work(args) -> dict:
         if shard == 1:
             # in-process history: the same model generated before and after other models within one process
             from .c19 import in_child
-            order = ["small_a", "small_a_open", "small_a", "small_a_base", "small_a", "small_a_doc", "small_mx", "small_b", "small_a_base", "small_mx"]
+            order = ["small_a", "=small_a", "small_a_open", "small_a", "small_a_base", "small_a", "small_a_doc", "small_mx", "small_b", "=small_b", "small_a_base",
+                     "small_mx", "=small_mx", "=small_a"]
             res = in_child(child_inprocess, plugin, pool.lists, order, timeout=900)
             if res is not None:
                 mref = M()
